@@ -71,10 +71,13 @@ def clear_kernel_cache():
     import tensora.compile._porcelain as P
 
     n = 0
-    for v in list(vars(P).values()):
+    for name, v in list(vars(P).items()):
         cc = getattr(v, "cache_clear", None)
         if callable(cc):
             cc()
+            n += 1
+        elif isinstance(v, dict) and "cache" in name.lower() and not name.startswith("__"):
+            v.clear()  # a hand-written cache (dict / OrderedDict) kept next to, or instead of, the lru_cache
             n += 1
     return n
 
